@@ -138,8 +138,31 @@ def judge(run, kind, cname, name, tag, pred, obs, info_row):
     run.oracle_ok("sweep")
 
 
+def replay_filter(run):
+    """--replay <file>: the (class, method) pairs of the sweep failures recorded in a replay file (None = no restriction)"""
+    if not run.replay:
+        return None
+    import json
+    from pathlib import Path
+    try:
+        d = json.loads(Path(run.replay).read_text())
+    except Exception:  # noqa
+        return None
+    pairs = set()
+    for f in d.get("failures", []):
+        c = f.get("case", {})
+        if f.get("site") == "sweep" and isinstance(c, dict) and "class" in c:
+            pairs.add((c["class"], c["method"]))
+    for c in d.get("broken_correspondence", {}).get("sweep", []):
+        c = c.get("case", {})
+        if isinstance(c, dict) and "class" in c:
+            pairs.add((c["class"], c["method"]))
+    return pairs or None
+
+
 def sweep(run, drv, info, scratch_dir, thorough):
     scratch = S.Scratch()
+    only = replay_filter(run)
     try:
         preds = {}
         for kind in S.KINDS:
@@ -154,6 +177,8 @@ def sweep(run, drv, info, scratch_dir, thorough):
             structural_seen = set()
             # 1. synthesised calls for every public method
             for name, what in names:
+                if only is not None and (cname, name) not in only:
+                    continue
                 pred = preds[(cname, name)]
                 run.count("sweep.klass", pred[0])
                 if pred[0] in ("absent", "unknown"):
@@ -192,6 +217,8 @@ def sweep(run, drv, info, scratch_dir, thorough):
             for name, a, k in S.hand_calls(kind, subj):
                 if not hasattr(cls, name):
                     continue
+                if only is not None and (cname, name) not in only:
+                    continue
                 k = dict(k)
                 must_ok = k.pop("__must_ok__", False) and kind in ("td", "lazy", "tc", "shared")
                 pred = preds.get((cname, name), ("absent", False, False, False))
@@ -215,6 +242,8 @@ def sweep(run, drv, info, scratch_dir, thorough):
                 judge(run, kind, cname, name, tag, pred, obs, None)
             # 3. every structural row of the table for this class was seen restructuring the twin at least once?
             for (c, n), p in preds.items():
+                if only is not None:
+                    break
                 if c == cname and p[0] == "structural":
                     run.count("sweep.structural_validated", "yes" if n in structural_seen else "no")
                     if n not in structural_seen:
